@@ -386,6 +386,16 @@ void fillAndSolve(vf::Ctx & c, Solver<S> & ls, const Problem<S> & P, int p, bool
     for (int r = m; r < Y.rows(); ++r) {Y(r) = bad;}
     for (int r = m; r < W.rows(); ++r) {W(r) = bad;}
   }
+  {
+    // the read-only accessors show what was just written (entry by entry; poisoned rows may hold NaN)
+    const Solver<S> & ro = ls;
+    auto same = [](const auto & a, const auto & b) {
+        return a.rows() == b.rows() && a.cols() == b.cols() &&
+               ((a.array() == b.array()) || ((a.array() != a.array()) && (b.array() != b.array()))).all();
+      };
+    c.check(same(ro.getJ(), J) && same(ro.getY(), Y) && same(ro.getW(), W),
+      who + ": the const getJ()/getY()/getW() do not show the content written through the non-const ones");
+  }
   auto runPath = [&](bool svd) {
       typename Outcome<S>::Vec x = svd ? ls.estimateUsingSVD() : ls.estimateUsingCholeskyDecomposition();
       out.x.push_back(x);
